@@ -55,6 +55,11 @@ GOOD = [
      b'Content-Disposition', b':', b' form-data', b';', b' name', b'=', b'"', b't', b'"', b'\r\n', b'\r\n', b'x', b'\r\n', b'--BND', b'--', b'\r\n'],
     [b'\r\n', b'--BND', b'\r\n', b'content-disposition', b':', b'form-data', b';', b'name', b'=', b'a', b'\r\n', b'X-Other', b':', b' v', b'\r\n', b'\r\n',
      b'', b'\r\n', b'--BND', b'--'],
+    # one name used by a text field, an upload and a text field again
+    [b'--BND', b'\r\n', b'Content-Disposition: form-data; name="x"', b'\r\n', b'\r\n', b't1', b'\r\n',
+     b'--BND', b'\r\n', b'Content-Disposition: form-data; name="x"; filename="u.bin"', b'\r\n', b'\r\n', b'u1', b'\r\n',
+     b'--BND', b'\r\n', b'Content-Disposition: form-data; name="x"', b'\r\n', b'\r\n', b't2', b'\r\n',
+     b'--BND', b'\r\n', b'Content-Disposition: form-data; name="x"; filename="v.bin"', b'\r\n', b'\r\n', b'u2', b'\r\n', b'--BND', b'--', b'\r\n'],
 ]
 REPL = [b'\x00', b' a\x00b', b'\t', b'\xc3\xa9', b'', b'\r', b'\n', b'\r\n', b'--BND', b'--', b':', b';', b'=', b'"', b'\xff', b'X', b'--BND--', b'\r\n\r\n', b' ']
 CTYPES = ['multipart/form-data', 'multipart/form-data; boundary=', 'multipart/form-data; boundary=""', 'multipart/form-data; boundary="BND"',
